@@ -636,6 +636,7 @@ func (d *badgerNodeDB) Finalize(roots []node.Root) error { // nolint: gocyclo
 	// Go through all roots and prune them based on whether they are finalized or not.
 	maybeLoneNodes := make(map[hash.Hash]bool)
 	notLoneNodes := make(map[hash.Hash]bool)
+	discardedNodes := make(map[hash.Hash]bool)
 
 	for rootHash := range rootsMeta.Roots {
 		// TODO: Consider colocating updated nodes with the root metadata.
@@ -671,7 +672,7 @@ func (d *badgerNodeDB) Finalize(roots []node.Root) error { // nolint: gocyclo
 			// roots added in the same version.
 			for _, n := range updatedNodes {
 				if !n.Removed {
-					maybeLoneNodes[n.Hash] = true
+					discardedNodes[n.Hash] = true
 				}
 			}
 
@@ -699,6 +700,22 @@ func (d *badgerNodeDB) Finalize(roots []node.Root) error { // nolint: gocyclo
 
 		// Set of updated nodes no longer needed after finalization.
 		if err = tx.Delete(rootUpdatedNodesKey); err != nil {
+			return err
+		}
+	}
+
+	// A node written by a non-finalized root is only a lone node if it was created in this version.
+	// If it already existed before (the non-finalized root rewrote it with an unchanged hash), it
+	// may still be referenced by a finalized root which did not touch it. In case the finalized
+	// roots no longer need it, it is among their removed nodes anyway.
+	prevTx := d.db.NewTransactionAt(versionToTs(version)-1, false)
+	defer prevTx.Discard()
+	for h := range discardedNodes {
+		switch _, err := prevTx.Get(nodeKeyFmt.Encode(&h)); err {
+		case nil:
+		case badger.ErrKeyNotFound:
+			maybeLoneNodes[h] = true
+		default:
 			return err
 		}
 	}
